@@ -14,7 +14,7 @@ ID = "C14"
 ENGINE = "symx+kernelsmt"
 TECHNIQUE = ("AST->SMT translation of the index kernels decided by z3 for all resolutions (validated against the real function on "
              "a parameter box) + bounded symbolic execution of the real generators with symbolic radii/centres")
-EXPLANATION = ("(a) kernelsmt: the face-index arithmetic of unit_grid, torus, sphere_uv, cylinder is read from the current source, "
+EXPLANATION = ("(a) kernelsmt: the face-index arithmetic of unit_grid, torus, sphere_uv, cylinder, ring and flat_ring is read from the current source, "
                "each appended index becomes an SMT term over the resolution parameters and loop variables, and z3 decides for all "
                "parameter values that every index is in range and equals the position at which the vertex loop appended the "
                "intended grid point; the translation is validated against the real function on a parameter box. (b) symx: the "
@@ -673,7 +673,45 @@ def _cylinder_spec():
                 box=lambda: [dict(N=a, fill_caps=c) for a in (3, 4, 6) for c in (False, True)], real_faces=real_faces, replay=replay)
 
 
-KERNELS = {"unit_grid": _grid_spec(), "torus": _torus_spec(), "sphere_uv": _sphere_spec(), "cylinder": _cylinder_spec()}
+def _ring_spec(flat):
+    fname = "flat_ring" if flat else "ring"
+
+    def fn():
+        from mouette.procedural import rings
+        return getattr(rings, fname)
+
+    def args(conc):
+        return (conc["N"], 0.5) if flat else (conc["N"], 0.5)
+
+    def real_faces(conc):
+        from mouette.procedural import rings
+        kw = dict(n_cover=conc["n_cover"]) if flat else dict(open=conc["open"], n_cover=conc["n_cover"])
+        return [tuple(int(v) for v in f) for f in getattr(rings, fname)(conc["N"], 0.5, **kw).faces]
+
+    def replay(sx):
+        from mouette.procedural import rings
+        N, cover = max(3, sx.int("N")), max(1, sx.int("n_cover"))
+        kw = dict(n_cover=cover) if flat else dict(open=sx.bool("open"), n_cover=cover)
+        try:
+            m = getattr(rings, fname)(N, 0.5, **kw)
+            n, faces = mesh_facts(m)
+            inr = all(0 <= v < n for f in faces for v in f)
+        except Exception:
+            inr, n = False, 0
+        sx.check(inr, fname + ": every face index is in range for all resolutions")
+        want = N * cover + (2 if (flat or kw.get("open")) else 1)
+        sx.check(n == want, fname + ": number of vertices is the documented function of the parameters, all resolutions")
+    params = dict(N="int", n_cover="int") if flat else dict(N="int", n_cover="int", open="bool")
+    return dict(fn=fn, params=params, min=3, extra_env=dict(defect=0.5),
+                hyp=lambda s: z3.And(s["N"] >= 3, s["n_cover"] >= 1),
+                nverts=(lambda s: s["N"] * s["n_cover"] + 2) if flat else (lambda s: s["N"] * s["n_cover"] + z3.If(s["open"], 2, 1)),
+                corner=lambda *a: None,
+                box=lambda: ([dict(N=a, n_cover=c) for a in (3, 4, 5) for c in (1, 2)] if flat else
+                             [dict(N=a, n_cover=c, open=o) for a in (3, 4, 5) for c in (1, 2) for o in (False, True)]),
+                real_faces=real_faces, replay=replay)
+
+
+KERNELS = {"ring": _ring_spec(False), "flat_ring": _ring_spec(True), "unit_grid": _grid_spec(), "torus": _torus_spec(), "sphere_uv": _sphere_spec(), "cylinder": _cylinder_spec()}
 
 
 def obligations(tier):
